@@ -56,6 +56,9 @@ def ekeys(errors):
     return [impl.errkey(e, instance=True) for e in errors]
 
 
+HELD = []       # exceptions caught during the current history stay alive until it ends (callers keep them)
+
+
 def perform(v, step, instances):
     """Run one operation on validator v; return a comparable outcome."""
     op = step[0]
@@ -69,6 +72,7 @@ def perform(v, step, instances):
                 v.validate(instances[step[1] % len(instances)])
                 return ("ok", None)
             except impl.exceptions.ValidationError as e:
+                HELD.append(e)
                 return ("ValidationError", impl.errkey(e, instance=True))
         if op in ("take_close", "take_drop"):
             it = v.iter_errors(instances[step[1] % len(instances)])
@@ -103,7 +107,8 @@ def perform(v, step, instances):
                     raise BodyFailed()
             except BodyFailed:
                 return ("ok", "body-raised", inner)
-    except impl.exceptions.RefResolutionError:
+    except impl.exceptions.RefResolutionError as e:
+        HELD.append(e)
         gc.collect()
         return ("RefResolutionError",)
     except impl.exceptions.UnknownType:
@@ -217,6 +222,7 @@ class C07(Prop):
         snap_store = dict((u, impl.cj(v.resolver.store[u])) for u in case["docs"] if case["via"][u] in ("store", "store#"))
         scope0, depth0 = v.resolver.resolution_scope, impl.stack_depth(v.resolver)
         interesting = False
+        del HELD[:]
         for n, step in enumerate(steps):
             if not isinstance(step, list) or not step or step[0] not in OPS:
                 res.excluded = "malformed-step"
